@@ -49,8 +49,12 @@ def oracle_vector(case, rec):
     if mask is not None:
         mask = np.asarray(mask, dtype=bool)
         kw['mask'] = mask.copy()
+    # "good cycles requested" = any truthy flag: the literal True, a numpy boolean (e.g. an element of a boolean options
+    # array), or 1
+    flag = [True, np.bool_(True), 1, True][(p2.shape[0] + (0 if mask is None else 1)) % 4]
+    rec.cls('return_good=%s' % type(flag).__name__)
     try:
-        out = np.asarray(emd.cycles.get_cycle_vector(p.copy(), return_good=True, **kw))
+        out = np.asarray(emd.cycles.get_cycle_vector(p.copy(), return_good=flag, **kw))
     except Exception as e:
         raise Violation('C13/get_cycle_vector/raises/%s%s' % (type(e).__name__, '/mask' if mask is not None else ''),
                         repr(e))
